@@ -525,6 +525,9 @@ def c11(F: Facts, raised_acts):
     for aw in F.awaits:
         if aw.e is not None and aw.outcome.startswith('exc:'):
             out.append(V('C11', 'await_raised', (aw.actor, aw.ev), outcome=aw.outcome))
+    # "the event completes": a run in which some handler raised and which then hangs
+    if raised_acts:
+        out += hang_violations(F, 'C11')
     # accessors
     for r in F.results_ops:
         _, _, _, actor, ev, accessor, flag, outcome, extra, errs, errs_after = r
